@@ -1111,6 +1111,13 @@ impl<'v, 'a, 'e: 'a> Evaluator<'v, 'a, 'e> {
     #[inline(always)]
     pub(crate) fn report_forward_progress(&mut self) -> crate::Result<()> {
         self.infrequent_instr_check_counter += 1;
+        #[cfg(starlark_verif)]
+        crate::verif::emit(
+            "tick",
+            self.infrequent_instr_check_counter as i64,
+            self.total_tick_count_at_last_infrequent_check as i64,
+            0,
+        );
         if self.infrequent_instr_check_counter >= INFREQUENT_INSTRUCTION_CHECK_PERIOD {
             #[cfg(rust_nightly)]
             std::hint::cold_path();
@@ -1124,6 +1131,13 @@ impl<'v, 'a, 'e: 'a> Evaluator<'v, 'a, 'e> {
     }
 
     pub(crate) fn run_infrequent_instr_checks(&mut self) -> crate::Result<()> {
+        #[cfg(starlark_verif)]
+        crate::verif::emit(
+            "check",
+            self.get_total_tick_count() as i64,
+            self.max_tick_count.map_or(-1, |x| x as i64),
+            (self.is_cancelled)() as i64,
+        );
         if (self.is_cancelled)() {
             return Err(crate::Error::new_other(EvaluatorError::Cancelled));
         }
